@@ -181,10 +181,11 @@ def arrayLeaf (toks : List Tok) : PRes (PExp × List Tok) :=
 
 /-! ### graph literals: `Graph { A -> [B: 2, C], B -> [C: -1.5], C }` -/
 
-/-- an edge of a graph literal: destination and the text of its cost (`signed_number`), if it has one -/
+/-- an edge of a graph literal: destination and its cost (`signed_number`: is there a `-`, the text of the number),
+if it has one -/
 structure GEdge where
   to : String
-  cost : Option String
+  cost : Option (Bool × String)
   deriving Repr, DecidableEq, Inhabited
 /-- a node with its outgoing edges (`A -> []` and `A` are the same node) -/
 structure GNode where
@@ -195,7 +196,7 @@ structure GNode where
 /-- `Display for GraphEdge`: `to:cost` / `to` -/
 def edgeChars (e : GEdge) : List Char :=
   match e.cost with
-  | some w => e.to.toList ++ ':' :: w.toList
+  | some (neg, w) => e.to.toList ++ ':' :: ((if neg then ['-'] else []) ++ w.toList)
   | none => e.to.toList
 /-- `Display for GraphNode`: `name -> [ e, e ]`, the bare name without edges -/
 def nodeChars (n : GNode) : List Char :=
@@ -232,12 +233,12 @@ def graphEdges : Nat → List Tok → List GEdge → Option (List GEdge × List 
     | .rbrack :: r => some (acc, r)
     | .word n :: r =>
       if !(isSimpleWord n) then none else
-      let costed : Option String × List Tok :=
+      let costed : Option (Bool × String) × List Tok :=
         match r with
-        | .colon :: .minus :: .int s :: r' => (some ("-" ++ s), r')
-        | .colon :: .minus :: .float s :: r' => (some ("-" ++ s), r')
-        | .colon :: .int s :: r' => (some s, r')
-        | .colon :: .float s :: r' => (some s, r')
+        | .colon :: .minus :: .int s :: r' => (some (true, s), r')
+        | .colon :: .minus :: .float s :: r' => (some (true, s), r')
+        | .colon :: .int s :: r' => (some (false, s), r')
+        | .colon :: .float s :: r' => (some (false, s), r')
         | _ => (none, r)
       match costed.2 with
       | .comma :: r2 => graphEdges f (skipNl r2) (acc ++ [⟨n, costed.1⟩])
@@ -277,14 +278,16 @@ def hasDupEdge (es : List GEdge) : Bool :=
   | [] => false
   | e :: rest => rest.any (fun x => x.to == e.to) || hasDupEdge rest
 
+/-- `nl* ~ graph_node_list ~ nl* ~ "}"` behind `Graph {`: the nodes -/
+def graphNodes (toks : List Tok) : Option (List GNode × List Tok) :=
+  let r0 := skipNl toks
+  match graphNode r0 with
+  | some (n, r1) => graphTail (r1.length + 1) r1 [n]
+  | none => graphTail (r0.length + 1) r0 []
+
 /-- `graph = { ^"Graph" ~ "{" ~ nl* ~ graph_node_list ~ nl* ~ "}" }` behind `Graph {`, and `parse_graph_node` -/
 def graphLeaf (toks : List Tok) : Option (PExp × List Tok) :=
-  let r0 := skipNl toks
-  let res :=
-    match graphNode r0 with
-    | some (n, r1) => graphTail (r1.length + 1) r1 [n]
-    | none => graphTail (r0.length + 1) r0 []
-  match res with
+  match graphNodes toks with
   | some (ns, r) =>
     if ns.any (fun n => hasDupEdge n.edges) then some (.block graphDupKind [], r) else some (.prim (graphText ns), r)
   | none => none
